@@ -446,4 +446,21 @@ PROPS = {
                      "methods of rustls ClientConfig / TlsStream and of the russh session handle do not return the secret "
                      "they were built from (results of calls on these handles are not followed by the translator)"],
     ),
+    "C04": dict(
+        thm=["Bgpfu.Thm.C04"],
+        ops=[("agentrun", [])],
+        level_text="The run is modelled as a phase program (send all requests of a phase, then await them in order; any "
+                   "error ends the run) against a server with one scripted fault. Theorems for EVERY number of loads, "
+                   "every fault position and every fault kind: commit is requested only if open, both fetches and all "
+                   "loads were positively acknowledged and the connection was still up; a fault at or before the last "
+                   "load means no commit and a failed run; the run succeeds iff every request was positively acknowledged. "
+                   "The real Updater::run is executed against an in-memory fake Junos for every position x kind.",
+        level_note="Model of the control flow of task.rs / netconf/mod.rs at request granularity; tokio task plumbing "
+                   "(spawn, try_join!, block_in_place) is exercised, not modelled. For connection-closing faults the number "
+                   "of already pipelined requests the server still reads is a race and is not compared.",
+        rule="N in {0,1,2,5} (thorough: up to 8) updates x every fault position 1..6+N x {rpc-error, malformed reply, "
+             "mis-numbered reply, close before reply, close after reply} (exhaustive), plus the fault-free run; observed: "
+             "ordered RPC names received by the fake Junos and the result of run()",
+        trusted=["fake Junos replies; the IRR side is a fake IRRd (expressions are literal prefix sets)"],
+    ),
 }
